@@ -391,4 +391,76 @@ have -> : const_mx 0 = 0 :> 'M[F]_(o_m o) by apply/matrixP => i j; rewrite !mxE.
 by rewrite mulmx0 mul0mx addr0.
 Qed.
 
+
+(* What op.diagonalization(method="lanczos") returns once the jitter is added to the DIAGONAL of T (the form the
+   docstring describes, RootDecomposition uses and proposed_fixes/C09-diagonalization-jitter-all-entries.diff
+   restores):  Qd diag(evals) Qd^T = P A P + jm P, and = A + jm I when the Krylov space is everything. *)
+Theorem diag_of_lanczos_diagonal_jitter (g : lz_args F) o nvec init :
+  lanczos_tridiag ArR g = Ok o -> lz_start g = Ok (nvec, init) ->
+  forall idx, (idx < size (o_Q o))%N ->
+    let n := g_n g in let m := o_m o in
+    let c := col_of (prodn (g_batch g)) nvec idx in
+    let Q := nth [::] (o_Q o) idx in let T := nth [::] (o_T o) idx in
+    forall Am : 'M[F]_n,
+    (forall X, cv n (g_mm g X) c = Am *m cv n X c) -> Am^T = Am ->
+    cv n init c != 0 ->
+    (forall j, (j.+1 < m)%N -> mget ArR T j j.+1 != 0) ->
+    forall (jit : F) (evals : vec F) (evecs : mat F),
+    let Tj := add_jitter ArR false jit m T in
+    let V := mx_of m m evecs in
+    V^T *m V = 1%:M -> mx_of m m Tj *m V = V *m diag_mx (rv m evals) ->
+    (forall j : 'I_m, 0 <= vget ArR evals j) ->
+    let Qm := mx_of n m Q in let P := Qm *m Qm^T in
+    let jm := jit * minl ArR (mkseq (fun i => mget ArR T i i) m) in
+    let Qd := mx_of n m (diag_post ArR n m Q evals evecs).2 in
+    let ev' := (diag_post ArR n m Q evals evecs).1 in
+    Qd *m diag_mx (rv m ev') *m Qd^T = P *m Am *m P + jm *: P
+    /\ (m = n -> Qd *m diag_mx (rv m ev') *m Qd^T = Am + jm%:M).
+Proof.
+move=> Hrun Hstart idx hidx /= Am Hlin Hsym Hv HG jit evals evecs VtV Hdiag Hev.
+have [H1 _ _] := lanczos_projection_rcf Hrun Hstart hidx Hlin Hsym Hv HG.
+have HQ := lanczos_orthonormal_rcf Hrun Hstart hidx Hv HG.
+have [_ _ HP] := compression_mx HQ H1.
+have E := diag_reproduces (g_n g) (nth [::] (o_Q o) idx) VtV Hdiag Hev.
+move: E; rewrite /= add_jitter_mx mulmxDr mulmxDl HP mul_mx_scalar -scalemxAl => E.
+split; first exact: E.
+move=> Em; rewrite E.
+have [HP1 _] := full_space_mx Em HQ H1.
+by rewrite HP1 !mul1mx !mulmx1 scalemx1.
+Qed.
+
+(* both forms at once: [embed] = the jitter lands on every entry of T (Diagonalization.forward as written on the
+   pinned tree) or on its diagonal (repaired) *)
+Theorem diag_of_lanczos_any_form (embed : bool) (g : lz_args F) o nvec init :
+  lanczos_tridiag ArR g = Ok o -> lz_start g = Ok (nvec, init) ->
+  forall idx, (idx < size (o_Q o))%N ->
+    let n := g_n g in let m := o_m o in
+    let c := col_of (prodn (g_batch g)) nvec idx in
+    let Q := nth [::] (o_Q o) idx in let T := nth [::] (o_T o) idx in
+    forall Am : 'M[F]_n,
+    (forall X, cv n (g_mm g X) c = Am *m cv n X c) -> Am^T = Am ->
+    cv n init c != 0 ->
+    (forall j, (j.+1 < m)%N -> mget ArR T j j.+1 != 0) ->
+    forall (jit : F) (evals : vec F) (evecs : mat F),
+    let Tj := add_jitter ArR embed jit m T in
+    let V := mx_of m m evecs in
+    V^T *m V = 1%:M -> mx_of m m Tj *m V = V *m diag_mx (rv m evals) ->
+    (forall j : 'I_m, 0 <= vget ArR evals j) ->
+    let Qm := mx_of n m Q in let P := Qm *m Qm^T in
+    let jm := jit * minl ArR (mkseq (fun i => mget ArR T i i) m) in
+    let Qd := mx_of n m (diag_post ArR n m Q evals evecs).2 in
+    let ev' := (diag_post ArR n m Q evals evecs).1 in
+    [/\ Qd *m diag_mx (rv m ev') *m Qd^T
+          = P *m Am *m P + (if embed then Qm *m const_mx jm *m Qm^T else jm *: P),
+        (jit = 0 -> Qd *m diag_mx (rv m ev') *m Qd^T = P *m Am *m P) &
+        (~~ embed -> m = n -> Qd *m diag_mx (rv m ev') *m Qd^T = Am + jm%:M)].
+Proof.
+case: embed => Hrun Hstart idx hidx /= Am Hlin Hsym Hv HG jit evals evecs VtV Hdiag Hev.
+  have [E1 E2] := diag_of_lanczos Hrun Hstart hidx Hlin Hsym Hv HG VtV Hdiag Hev.
+  by split.
+have [E1 E2] := diag_of_lanczos_diagonal_jitter Hrun Hstart hidx Hlin Hsym Hv HG VtV Hdiag Hev.
+split=> //.
+by move=> j0; rewrite E1 j0 mul0r scale0r addr0.
+Qed.
+
 End Post.
